@@ -331,6 +331,38 @@ class NPProxy(object):
             return obj_full(shape, 0)
         return real_np.empty(shape, dtype=dtype, **kw)
 
+    def full(self, shape, fill_value, dtype=None, **kw):
+        dt = dtype
+        if dt is None and not is_symbolic(fill_value):
+            dt = real_np.asarray(fill_value).dtype
+        if is_symbolic(fill_value) or self._want_obj(dt):
+            out = obj_full(shape, fill_value)
+            try:
+                if dt is not None and np.dtype(dt).kind in 'iu':
+                    out = out.view(IntSymArray)
+            except TypeError:
+                pass
+            return out
+        return real_np.full(shape, fill_value, dtype=dtype, **kw)
+
+    def full_like(self, a, fill_value, dtype=None, **kw):
+        a = np.asarray(a)
+        dt = a.dtype if dtype is None else dtype
+        if a.dtype == object or is_symbolic(fill_value) or self._want_obj(dt):
+            if np.dtype(dt).kind == 'b':
+                return real_np.full(a.shape, bool(fill_value), dtype=bool)
+            return obj_full(a.shape, fill_value)
+        return real_np.full_like(a, fill_value, dtype=dtype, **kw)
+
+    def empty_like(self, a, dtype=None, **kw):
+        a = np.asarray(a)
+        dt = a.dtype if dtype is None else dtype
+        if a.dtype == object or self._want_obj(dt):
+            if np.dtype(dt).kind == 'b':
+                return real_np.zeros(a.shape, dtype=bool)
+            return obj_full(a.shape, 0)
+        return real_np.empty_like(a, dtype=dtype, **kw)
+
     def zeros_like(self, a, dtype=None, **kw):
         a = np.asarray(a)
         dt = a.dtype if dtype is None else dtype
@@ -1191,6 +1223,7 @@ _TARGETS = [
     ('emd.support', {'np': NP}),
     ('emd.logger', {}),
 ]
+ACTIVE = [False]
 _SKIP_MODULES = ('emd.logger', 'emd.plotting', 'emd.example', 'emd.tests')
 
 
@@ -1240,8 +1273,10 @@ def installed():
         InlinePool.log = []
         InlinePool.npools = 0
         real_spatial.cKDTree = ckdtree_factory
+        ACTIVE[0] = True
         yield
     finally:
+        ACTIVE[0] = False
         real_spatial.cKDTree = REAL_CKDTREE
         for mod, k, v in reversed(saved):
             setattr(mod, k, v)
